@@ -13,6 +13,7 @@ VARIABLES z
 Init == z = [k |-> "start"]
 Next == /\ z.k = "start"
         /\ IF Part = "chan" THEN \E a \in ChMaxes, b \in ChMaxes : z' = [k |-> "chan", l |-> a, r |-> b]
+           ELSE IF Part = "idleclose" THEN \E sq \in [1..Depth -> {"AdvA", "AdvC", "AdvD", "PEmpty"}] : z' = [k |-> "idleclose", sq |-> sq]
            ELSE \E sq \in [1..Depth -> Steps] : z' = [k |-> "idle", sq |-> sq]
 Spec == Init /\ [][Next]_z
 
@@ -34,5 +35,8 @@ Conc(st, i) == CASE st = "AdvA" -> <<Adv(150)>> [] st = "AdvB" -> <<Adv(190)>> [
 RECURSIVE Body(_, _)
 Body(sq, i) == IF i > Len(sq) THEN <<>> ELSE Conc(sq[i], i) \o Body(sq, i + 1)
 Idle(sq) == Open(10, 10, LocalIdle, RemoteIdle) \o <<[e |-> "AOnClose"]>> \o Body(sq, 1) \o <<Adv(50)>>
-Emit == z.k = "start" \/ PrintT(<<"SCRIPT", ToJson([side |-> "client", id |-> z, final_ms |-> 1000, ev |-> IF z.k = "chan" THEN Chan(z.l, z.r) ELSE Idle(z.sq)])>>)
+\* the application closes and the peer lets several of its idle periods pass before it answers: nothing more is sent, heartbeats included
+IdleClose(sq) == Open(10, 10, LocalIdle, RemoteIdle) \o <<[e |-> "AClose", err |-> ""]>> \o Body(sq, 1) \o <<[e |-> "PFrame", perf |-> "close", ch |-> 0, f |-> [err |-> ""]]>>
+Emit == z.k = "start" \/ PrintT(<<"SCRIPT", ToJson([side |-> "client", id |-> z, final_ms |-> 1000,
+                                                     ev |-> IF z.k = "chan" THEN Chan(z.l, z.r) ELSE IF z.k = "idleclose" THEN IdleClose(z.sq) ELSE Idle(z.sq)])>>)
 =============================================================================
